@@ -380,3 +380,55 @@ Proof.
   intros P G. destruct (of_json_good v G) as [E D]. split; [exact D|].
   apply real_canon_is_canon; [exact D | rewrite E; exact P].
 Qed.
+
+(* ---- 7. the envelope lemmas of Digest/EnvelopeProofs.v for canon := real_canon: no premise on
+   the canonicaliser is left, only the domain of the two documents involved ---- *)
+From Verif Require Digest.Envelope Digest.EnvelopeProofs.
+Module E := Digest.Envelope.
+Module EP := Digest.EnvelopeProofs.
+
+Section Real.
+  Variable rest : Type.
+  Variable H : bytes -> bytes.
+  Variable structural : E.envelope content rest -> bool.
+  Variable calc_doc : content -> option content.
+
+  Notation validate := (E.validate content rest real_canon H structural).
+  Notation calculate := (E.calculate content rest real_canon H calc_doc).
+
+  Lemma reencoding_preserves_validity_real e d' :
+    in_domain (E.e_doc e) = true -> in_domain d' = true -> C.norm d' = C.norm (E.e_doc e) ->
+    structural (E.with_doc e d') = structural e ->
+    validate e = E.Valid -> validate (E.with_doc e d') = E.Valid.
+  Proof.
+    intros D D' N. apply EP.reencoding_preserves_validity_at. apply real_canon_respects; assumption.
+  Qed.
+
+  Lemma digest_tamper_evident_real e d' :
+    in_domain (E.e_doc e) = true -> in_domain d' = true ->
+    validate e = E.Valid -> validate (E.with_doc e d') = E.Valid ->
+    C.norm d' = C.norm (E.e_doc e) \/
+    (real_canon (E.e_doc e) <> real_canon d' /\ H (real_canon (E.e_doc e)) = H (real_canon d')).
+  Proof.
+    intros D D'. apply EP.digest_tamper_evident_at. intro X. symmetry. apply real_canon_injective; assumption.
+  Qed.
+
+  Lemma tampered_is_rejected_real e d' :
+    in_domain (E.e_doc e) = true -> in_domain d' = true -> validate e = E.Valid ->
+    C.norm d' <> C.norm (E.e_doc e) -> H (real_canon (E.e_doc e)) <> H (real_canon d') ->
+    validate (E.with_doc e d') <> E.Valid /\
+    (structural (E.with_doc e d') = true -> validate (E.with_doc e d') = E.ErrDigest).
+  Proof.
+    intros D D'. apply EP.tampered_is_rejected_at. intro X. symmetry. apply real_canon_injective; assumption.
+  Qed.
+
+  Lemma recalculated_digest_differs_real e d' e1 :
+    in_domain (E.e_doc e) = true -> in_domain (E.e_doc e1) = true ->
+    validate e = E.Valid -> calculate (E.with_doc e d') = Some e1 ->
+    C.norm (E.e_doc e1) <> C.norm (E.e_doc e) ->
+    E.e_dig e1 <> E.e_dig e \/
+    (real_canon (E.e_doc e) <> real_canon (E.e_doc e1) /\ H (real_canon (E.e_doc e)) = H (real_canon (E.e_doc e1))).
+  Proof.
+    intros D D1. apply EP.recalculated_digest_differs_at. intro X. symmetry. apply real_canon_injective; assumption.
+  Qed.
+End Real.
